@@ -1,7 +1,7 @@
 SPECIFICATION Spec
 CONSTANTS
   Trees <- TreesF
-  Events <- EventsA
+  Events <- EventsM
   MaxLen = 1
   MaxRuns = 1
   Export = FALSE
